@@ -6,6 +6,7 @@ shown, what each kind of answer (accept, reject, drop before/after answering) pu
 import Penguin.Model.Mux
 import Penguin.Lemmas.MuxBasic
 import Penguin.Lemmas.MuxStep
+import Penguin.Lemmas.MuxOnceB
 
 namespace Penguin.C15
 open Penguin Penguin.Mux
@@ -101,6 +102,25 @@ theorem binds_disabled (e : EP) (fid : Nat) (bt : BindType) (port : Nat) (host :
 /-- If the connection ends first, a pending request resolves `false`. -/
 theorem connection_end_resolves_false (e : EP) (req fid : Nat) (inh final : Bool) :
     (closeLocal e (.bindRequested req) fid inh final).2 = [.bindDone req .refused] := rfl
+
+/-- Exactly once, the "at most" half for every history: over any history of stimuli of one endpoint
+    (application calls, deliveries of anything a peer may send, faults, the wind-down) in which bind
+    request numbers are not reused, no bind request is answered twice — accepted (the peer's `Finish`),
+    refused (its `Reset`, or the connection ending first) or `Closed` — and only requests that were
+    made are answered. (The "at least" half is C08: whatever is pending when the connection ends is
+    answered by the wind-down, `connection_end_resolves_false`.) `Lemmas/MuxOnceB.lean`. -/
+theorem each_bind_request_answered_at_most_once (o : Opts) (ops : List Mux.Op) (h : (bindsOf ops).Nodup) :
+    (doneB (runOpsEv { opts := o } ops).2).Nodup ∧
+    ∀ r, r ∈ doneB (runOpsEv { opts := o } ops).2 → r ∈ bindsOf ops :=
+  binds_answered_at_most_once o ops h
+
+/-! Non-vacuity: request 1 is accepted by the peer, request 2 refused, request 3 is still pending
+    when the peer closes the connection (refused by the wind-down). -/
+private def bops : List Mux.Op :=
+  [.bindReq 1 .stream [97] 80, .bindReq 2 .datagram [98] 81, .deliver (.msg (.frame (.finish 7))),
+   .deliver (.msg (.frame (.reset 8))), .bindReq 3 .stream [99] 82, .deliver (.msg .close)]
+example : bindsOf bops = [1, 2, 3] := by decide
+example : doneB (runOpsEv { opts := {}, rng := [7, 8, 9] } bops).2 = [1, 2, 3] := by decide
 
 /-! Non-vacuity -/
 example : (appBindReq { opts := {}, rng := [7] } 1 .stream [0x61] 80).1.outq = [.frame (.bind 7 .stream 80 [0x61])] := by decide
